@@ -43,6 +43,8 @@ pub enum DataKind {
     Cloud,
     Duplicates,
     Lattice,
+    /// widely dispersed cloud whose bounding box excludes the origin in (at least) one feature
+    DispersedOffOrigin,
 }
 
 /// memory layout of a matrix handed to linfa (the logical content is the same in all three)
@@ -317,6 +319,50 @@ pub fn restarts_case(tier: Tier) -> impl Strategy<Value = Case> {
                 _ => Init::Precomputed(build_c0(&raw, &data.rows, k, p)),
             };
             Case { data, k, metric, init, max_iter, tol, n_runs, seed, queries: vec![], c0_layout, query_layout: Layout::RowMajor }
+        })
+}
+
+/// KMeans|| stratum: a cloud that is wide compared with its distance from the origin while the
+/// origin lies outside its bounding box in one feature (a constant / narrow "bias" column), or a
+/// unit box [1,2]^p; budgets 1..=2, so that a start centroid that is not a data row (e.g. an
+/// unfilled all-zero row of k-means||'s candidate buffer) is still visibly outside the box.
+pub fn para_box_case(_tier: Tier) -> impl Strategy<Value = Case> {
+    let rows = proptest::collection::vec(proptest::collection::vec(gauss(), W), 20..=80);
+    let shape = (
+        2usize..=W,
+        any::<u16>(),
+        prop_oneof![Just(1.0f64), Just(-1.0f64), Just(2.0f64)],
+        prop_oneof![2 => Just(0.0f64), 1 => Just(0.25f64)],
+        prop_oneof![Just(2.0f64), Just(4.0f64), Just(8.0f64), Just(16.0f64)],
+        prop_oneof![3 => Just(false), 1 => Just(true)],
+    );
+    (
+        rows,
+        shape,
+        (2usize..=6, metric_strategy(), any::<bool>(), layout_strategy()),
+        (1u64..=2, tol_strategy(), 1usize..=2, any::<u64>()),
+        (queries_strategy(), layout_strategy()),
+    )
+        .prop_map(|(rows, (p, jj, bias, jitter, spread, unit_box), (k, metric, f32_, layout), (max_iter, tol, n_runs, seed), (q, query_layout))| {
+            let j0 = idx(jj, p);
+            let rows: Vec<Vec<f64>> = rows
+                .into_iter()
+                .map(|r| {
+                    (0..p)
+                        .map(|j| {
+                            if unit_box {
+                                1.0 + (r[j].abs() % 1.0)
+                            } else if j == j0 {
+                                bias + jitter * (r[j].abs() % 1.0) * bias.signum()
+                            } else {
+                                spread * r[j]
+                            }
+                        })
+                        .collect()
+                })
+                .collect();
+            let data = Data { kind: DataKind::DispersedOffOrigin, f32_, scale_exp: 0, offset: vec![], layout, rows };
+            Case { data, k, metric, init: Init::Para, max_iter, tol, n_runs, seed, queries: cut(q, p), c0_layout: Layout::RowMajor, query_layout }
         })
 }
 
